@@ -1569,6 +1569,8 @@ func TestVerifC03(t *testing.T) {
 	if outc["available"] == 0 && len(runs) > 0 && rep.Violations() == 0 {
 		rep.Infra("vacuous: no explored call ever returned available")
 	}
+	// SC part: the per-height session gate under every interleaving (sessions_sc_test.go)
+	exhaustive = vsessSC(t, rep, deadline.Add(20*time.Second)) && exhaustive
 	rep.SetExhaustive(exhaustive)
 	if rep.Finish() > 0 {
 		t.Fail()
